@@ -159,9 +159,19 @@ func genHM(r *Rand, edge bool) (int, int) {
 
 var cardPool = []uint32{0, 1, 0xffffffff, 0x00ffffff, 0x00fffffe, 0x01000000, 8165538, 10058400, 6154412, 25565535, 25565536, 25600000, 25599999, 99999999, 100000000, 100000001, 255065535, 1000000000, 4294967294, 65535, 65536, 165535, 165536}
 
+// set by the card-number sweep: PutCard is generated with this card number
+var forceCardNo *uint32
+
 func genCardNo(r *Rand) uint32 {
-	if r.Intn(3) == 0 {
+	switch r.Intn(6) {
+	case 0, 1:
 		return r.U32()
+	case 2:
+		return patternU32(r)
+	case 3:
+		if v, ok := dictU32(r); ok { // derived from a number the source itself names
+			return v
+		}
 	}
 	return cardPool[r.Intn(len(cardPool))]
 }
@@ -337,7 +347,9 @@ func genOp(r *Rand, which int, id uint32, edge bool) OpCase {
 		})
 	case 12:
 		no := genCardNo(r)
-		if !edge {
+		if forceCardNo != nil {
+			no = *forceCardNo
+		} else if !edge {
 			for no == 0 || no == 0xffffffff || no == 0x00ffffff {
 				no = 1 + r.U32()%100000000
 			}
